@@ -28,6 +28,7 @@ const (
 const (
 	errorTooLargeBulkStringLength = "too large bulk string length (%d > %d)"
 	errorTooLargeArraySize        = "too large array size (%d > %d)"
+	errorTooDeepArray             = "too deeply nested array (> %d)"
 )
 
 // ErrEOM is the error returned by Array::Next() when no more message is available.
